@@ -13,7 +13,7 @@ LEVEL = "exploration"
 WORKERS = {"quick": 8, "thorough": 16}
 BUDGET = {"quick": 150, "thorough": 420}
 MIN_NONTRIVIAL = {"quick": 3000, "thorough": 60000}
-REQUIRED_HOOKS = ["program-reuse", "size-probe", "macro-error-position", "evaluate:I", "evaluate:C", "index-sweep", "key-sweep", "regex", "law"]
+REQUIRED_HOOKS = ["program-reuse", "shadowing-macro-variable", "size-probe", "macro-error-position", "evaluate:I", "evaluate:C", "index-sweep", "key-sweep", "regex", "law"]
 RULE = (
     "Well-typed programs over lists and maps of int/uint/bool/string (nested to depth 2) and strings from the type-directed generator restricted to "
     "indexing, in, size, concatenation, map construction/lookup/has, contains/startsWith/endsWith, map/filter/all/exists/exists_one, with injected failing "
@@ -403,6 +403,29 @@ def macro_error_positions(acc, ctx):
     acc.exhaustive.append("5 macros x 5 bodies x every list over {match, no match, failing element} up to length 4")
 
 
+# the iteration variable spelled like a name that is already bound (by the caller or by an enclosing macro): the body is evaluated
+# at the ELEMENT (deterministic list; the generator produces such programs only now and then)
+SHADOW_TEXTS = [
+    "l.map(n, n * 2)", "l.filter(n, n > 1)", "l.exists(n, n == 2)", "l.all(n, n > 0)", "l.exists_one(n, n == 2)", "[1, 2].map(x, [10, 20].map(x, x + 1))", "[[1, 2], [3]].map(x, x.map(x, x * 2))",
+    "[1, 2].map(x, [x, 5].filter(x, x > 1))", "l.map(n, l.filter(n, n >= 2).size())", "[1, 2, 3].filter(n, [n].exists(n, n == 2))", "l.map(s, s + 1)", "m.k.map(n, n + n)", "l.map(n, n in l)",
+    "[2, 3].exists(n, l.all(n, n > 0) && n == 3)", "n + l.map(n, n)[0] + n", "l.map(n, n)[0] == n || l.exists(n, n == 5)", "size(l.filter(n, n != 1)) + n",
+]
+
+
+def shadow_programs(acc, ctx):
+    c = core.celpy()
+    parser = c.CELParser(tree_class=c.TranspilerTree)
+    from .. import larkconv
+
+    for i, src in enumerate(SHADOW_TEXTS):
+        if not ctx.mine(i):
+            continue
+        node = larkconv.with_simple_literals(larkconv.conv(parser.parse(src)))
+        for env in REUSE_ENVS[:2] + [{"l": ("list", (("int", 1), ("int", 2), ("int", 3))), "n": ("int", 50), "m": ("map", ((("string", "k"), ("list", (("int", 4), ("int", 5)))),)), "s": ("string", "zz")}]:
+            acc.hook("shadowing-macro-variable")
+            check_program(acc, node, env, "shadow")
+
+
 def fixed_reuse(acc, ctx):
     c = core.celpy()
     parser = c.CELParser(tree_class=c.TranspilerTree)
@@ -421,6 +444,7 @@ def run(ctx):
     rnd = ctx.rnd
     core.celpy()
     fixed_reuse(acc, ctx)
+    shadow_programs(acc, ctx)
     size_probes(acc, ctx)
     macro_error_positions(acc, ctx)
     index_sweep(acc, ctx)
